@@ -159,7 +159,8 @@ func checkC10(c *Check) {
 		ok := false
 		for _, b := range fn.Blocks {
 			if iff := blockIf(b); iff != nil && b == fn.Blocks[0] {
-				if strings.Contains(describe(iff.Cond), "== nil") {
+				// a nil test of the body (either polarity) whose nil side answers with an error reply and returns
+				if bo, eq, _, isEq := eqEdges(iff); isEq && isNilConst(bo.Y) && leadsToReturn(b.Succs[eq], 3) {
 					ok = true
 				}
 			}
